@@ -1,5 +1,4 @@
 import AgModel.Proofs.NodeRun
-import AgModel.Props.C05
 import AgModel.Proofs.PoolGlue
 import AgModel.Props.C09
 import AgModel.Props.C18
@@ -34,7 +33,9 @@ theorem votor_never_panics (e : Pool.Epoch) (ops : List NodeOp) :
     ⟨⟨[], by simp, rfl⟩, by intro x hx; simp at hx⟩
   obtain ⟨es, hes, hrun⟩ := (nodeRun_inv ops _ i).hist
   rw [hrun]
-  exact Votor.votor_asserts_unreachable es hes
+  -- = C05 `votor_asserts_unreachable` (Props/C05.lean is not imported: its composed-node part builds on the C06 pool glue,
+  -- whose lemma names clash with the C07/C18 pool wiring imported here through Props/C18)
+  exact Votor.run_panicked es Votor.Inv.init hes
 
 /-- the pool's own state stays well-formed under every input (C03/C18 `PoolOk`), restated for the node -/
 theorem node_pool_ok (e : Pool.Epoch) (hpos : 0 < e.total) (ops : List Pool.PoolOp)
